@@ -543,9 +543,10 @@ func (bp *baseProcessor) createMiniBlockHeaders(body *block.Body) (int, []block.
 
 // check if header has the same miniblocks as presented in body
 func (bp *baseProcessor) checkHeaderBodyCorrelation(miniBlockHeaders []block.MiniBlockHeader, body *block.Body) error {
-	mbHashesFromHdr := make(map[string]*block.MiniBlockHeader, len(miniBlockHeaders))
+	mbHashesFromHdr := make(map[string][]*block.MiniBlockHeader, len(miniBlockHeaders))
 	for i := 0; i < len(miniBlockHeaders); i++ {
-		mbHashesFromHdr[string(miniBlockHeaders[i].Hash)] = &miniBlockHeaders[i]
+		mbHash := string(miniBlockHeaders[i].Hash)
+		mbHashesFromHdr[mbHash] = append(mbHashesFromHdr[mbHash], &miniBlockHeaders[i])
 	}
 
 	if len(miniBlockHeaders) != len(body.MiniBlocks) {
@@ -563,10 +564,14 @@ func (bp *baseProcessor) checkHeaderBodyCorrelation(miniBlockHeaders []block.Min
 			return err
 		}
 
-		mbHdr, ok := mbHashesFromHdr[string(mbHash)]
-		if !ok {
+		mbHdrs := mbHashesFromHdr[string(mbHash)]
+		if len(mbHdrs) == 0 {
 			return process.ErrHeaderBodyMismatch
 		}
+
+		// each header entry is matched by exactly one miniblock of the body
+		mbHdr := mbHdrs[0]
+		mbHashesFromHdr[string(mbHash)] = mbHdrs[1:]
 
 		if mbHdr.TxCount != uint32(len(miniBlock.TxHashes)) {
 			return process.ErrHeaderBodyMismatch
